@@ -11,7 +11,7 @@ R19.3 -U neutrality [proof per step]: for every DF4/5/11/17 context the values s
 """
 from ..absint.batch import k2_results
 from ..absint.domain import EnumV
-from ..absint.query import accepted, other_deps, sel, stores_of, summary
+from ..absint.query import accepted, ctl_other_deps, other_deps, sel, stores_of, summary
 from ..cfg import call_graph, reachable_bodies
 from ..effects import Effects
 from ..facts import Broken, callee_name, span_loc
@@ -146,7 +146,8 @@ def run(facts, rep, tier):
         for path, v, pc, ctl in r.stores:
             f = path[0][1]
             od = {d for d in other_deps(v) if isinstance(d, tuple) and d and d[0] == "observer"}
-            cd = {d for d in ctl if isinstance(d, tuple) and d and d[0] == "observer"}
+            cd = {d for d in ctl if isinstance(d, tuple) and d and d[0] == "observer"} | \
+                {d for d in ctl_other_deps(v) if isinstance(d, tuple) and d and d[0] == "observer"}
             if od or cd:
                 n2 += 1
                 ok = f == "distance_from_observer"
